@@ -483,6 +483,15 @@ fn growth_probe(r: &mut Rng) -> Vec<String> {
         let mut v: MutBumpVecRev<u32, &mut Bump> = MutBumpVecRev::with_capacity_in(n, &mut bump);
         for x in data.iter().rev() { v.push(*x); }       // now reads as `data`
         let mut want = data.clone();
+        // a MutBumpVecRev owns the rest of its chunk: in half of the cases fill it (almost) up first, so that the
+        // operation has to move the vector into a new chunk
+        if r.coin(1, 2) {
+            let slack = r.below(3) as usize;
+            let mut k = 0u32;
+            while v.len() + slack < v.capacity() && v.len() < 4000 { k += 1; v.push(0x5000 + k); want.insert(0, 0x5000 + k); }
+        }
+        let data = want.clone();
+        let (a, b) = (a.min(data.len()), b.min(data.len()));
         let ok = match which {
             0 => { v.extend_from_within_copy(a..b); let mut p = data[a..b].to_vec(); p.extend(want); want = p; true }
             1 => { v.extend_from_within_clone(a..b); let mut p = data[a..b].to_vec(); p.extend(want); want = p; true }
